@@ -378,6 +378,37 @@ func (dec *Decoder) ResetBuffer() *Decoder {
 	return dec
 }
 
+// maxPrealloc bounds what is allocated up front on the strength of a count or length that
+// cannot be checked against the input (decoding from an io.Reader).
+const maxPrealloc = 1024
+
+func (dec *Decoder) invalidLength(kind string, n int) {
+	if dec.Error == nil {
+		dec.Error = DecodeError("hprose/io: invalid " + kind + " " + strconv.Itoa(n))
+	}
+}
+
+// ReadCount reads the number of elements of a list, a map or a class definition. Every
+// element takes at least one byte of input, so a negative count, or a count larger than
+// the unread input when decoding from a byte slice, is reported through Error and 0 is
+// returned.
+func (dec *Decoder) ReadCount() (count int) {
+	count = dec.ReadInt()
+	if count < 0 || (dec.reader == nil && count > dec.tail-dec.head) {
+		dec.invalidLength("count", count)
+		return 0
+	}
+	return count
+}
+
+// prealloc returns how many of count elements may be allocated before they are read.
+func (dec *Decoder) prealloc(count int) int {
+	if dec.reader != nil && count > maxPrealloc {
+		return maxPrealloc
+	}
+	return count
+}
+
 // NextByte reads and returns the next byte from the dec. If no byte is available, it returns 0.
 func (dec *Decoder) NextByte() (b byte) {
 	if (dec.head == dec.tail) && !dec.loadMore() {
@@ -397,6 +428,10 @@ func (dec *Decoder) Skip() {
 }
 
 func (dec *Decoder) next(n int) (data []byte, safe bool) {
+	if n < 0 {
+		dec.invalidLength("length", n)
+		return nil, true
+	}
 	if (dec.head == dec.tail) && !dec.loadMore() {
 		return nil, true
 	}
@@ -407,7 +442,14 @@ func (dec *Decoder) next(n int) (data []byte, safe bool) {
 		return data, false
 	}
 	safe = true
-	data = make([]byte, remain, n)
+	if dec.reader == nil {
+		// the input ends before the announced length
+		data = make([]byte, remain)
+		copy(data, dec.buf[dec.head:dec.tail])
+		dec.loadMore()
+		return
+	}
+	data = make([]byte, remain, remain+dec.prealloc(n-remain))
 	copy(data, dec.buf[dec.head:dec.tail])
 	n -= remain
 	for {
